@@ -83,7 +83,7 @@ func VerifC02_Step() {
 	kt := vrt.U32("kt")
 	t64 := int64(kt) * int64(lo.secondsPerPoint)
 	vrt.Assume(t64 > 0)
-	vrt.Assume(t64 <= 0xffffffff)
+	vrt.Assume(t64 <= 0xffffffff-4*int64(lo.secondsPerPoint)) // T2: away from the end of the 32-bit epoch
 	t := Timestamp(t64)
 	vrtAssumeNear(h, now, t)
 	vrt.Reach("pre")
